@@ -737,6 +737,7 @@ class LiveRun:
         self.monitors = []
         self.monitor_classes = monitor_classes
         self.markets_by_id = {m["id"]: m for m in scenario["markets"]}
+        self._obs_crashes = set()
         if any(m.get("hc") for m in scenario["markets"]):
             self.res.probes["scenario.handicap_market"] += 1
         self.pt_index = {m["id"]: {u["pt"]: j for j, u in enumerate(m["updates"])} for m in scenario["markets"]}
